@@ -575,50 +575,98 @@ pub struct Phc {
     pub salt_b64: String,
     pub hash_b64: Option<String>,
 }
+/// PHC identifier (algorithm, parameter name): 1..=32 characters of a-z 0-9 '-'
+fn phc_ident_ok(s: &str) -> bool {
+    (1..=32).contains(&s.len()) && s.bytes().all(|c| c.is_ascii_lowercase() || c.is_ascii_digit() || c == b'-')
+}
+/// PHC value: at most 64 characters of A-Z a-z 0-9 '/' '+' '.' '-'
+fn phc_value_ok(s: &str) -> bool {
+    s.len() <= 64 && s.bytes().all(|c| c.is_ascii_alphanumeric() || matches!(c, b'/' | b'+' | b'.' | b'-'))
+}
+/// canonical decimal of a u32: digits only, no leading zero (except "0"), no sign
+pub fn phc_decimal(s: &str) -> Option<u32> {
+    if s.is_empty() || !s.bytes().all(|c| c.is_ascii_digit()) || (s.len() > 1 && s.starts_with('0')) {
+        return None;
+    }
+    s.parse().ok()
+}
+/// A strict PHC string parser (the rules of the PHC string format as the password-hash crate applies them, written
+/// independently of it): `$id[$v=N][$k=v,..][$salt[$hash]]`; identifiers and values have their alphabets and length
+/// limits, the parameter string has at most 127 bytes, the version is a canonical u32 decimal, the salt has 4..=64
+/// characters and must decode as unpadded canonical base64, the hash decodes to 10..=64 bytes.  None: no key can
+/// be derived from the string.  (A repeated parameter name is not an error of the format.)
 pub fn phc_parse(s: &[u8]) -> Option<Phc> {
     let s = std::str::from_utf8(s).ok()?;
     let f: Vec<&str> = s.split('$').collect();
-    if f.len() < 3 || !f[0].is_empty() || f[1].is_empty() {
+    if f.len() < 2 || !f[0].is_empty() || !phc_ident_ok(f[1]) {
         return None;
     }
     let mut i = 2;
     let mut version = None;
-    if let Some(v) = f[i].strip_prefix("v=") {
-        version = Some(v.parse().ok()?);
+    if i < f.len() && f[i].starts_with("v=") && !f[i].contains(',') {
+        version = Some(phc_decimal(&f[i][2..])?);
         i += 1;
     }
     let mut params = Vec::new();
     if i < f.len() && f[i].contains('=') {
+        if f[i].len() > 127 {
+            return None;
+        }
         for kv in f[i].split(',') {
-            let (k, v) = kv.split_once('=')?;
-            params.push((k.to_string(), v.to_string()));
+            let parts: Vec<&str> = kv.split('=').collect();
+            if parts.len() != 2 || !phc_ident_ok(parts[0]) || !phc_value_ok(parts[1]) {
+                return None;
+            }
+            params.push((parts[0].to_string(), parts[1].to_string()));
         }
         i += 1;
     }
     if i >= f.len() {
+        return None; // no salt: nothing to derive a key from
+    }
+    if !(4..=64).contains(&f[i].len()) || !phc_value_ok(f[i]) {
         return None;
     }
     let salt_b64 = f[i].to_string();
     let salt = b64_decode_nopad(f[i].as_bytes())?;
     i += 1;
-    let hash_b64 = if i < f.len() { Some(f[i].to_string()) } else { None };
+    let hash_b64 = if i < f.len() {
+        let h = b64_decode_nopad(f[i].as_bytes())?;
+        if !(10..=64).contains(&h.len()) {
+            return None;
+        }
+        Some(f[i].to_string())
+    } else {
+        None
+    };
     if i + 1 < f.len() {
         return None;
     }
     Some(Phc { id: f[1].to_string(), version, params, salt, salt_b64, hash_b64 })
 }
 
-/// key = KDF(password; algorithm, version, parameters and salt of the PHC string), 32 bytes
+/// key = KDF(password; algorithm, version, parameters and salt of the PHC string), 32 bytes.
+/// The parameter rules are those of the reference implementations: decimal m, t, p (argon2; also keyid of at most
+/// 8 and data of at most 32 bytes in base64, the data enters the hash) or i, l (pbkdf2); of a repeated parameter
+/// the last occurrence counts, but every occurrence must be well formed; a hash in the string fixes the output
+/// length (argon2: its length; pbkdf2: must agree with l), and only a 32-byte output is a key.
 pub fn derive_key(phc: &Phc, password: &[u8]) -> Result<Vec<u8>, String> {
-    let get = |k: &str| -> Option<u32> { phc.params.iter().find(|(a, _)| a == k).and_then(|(_, v)| v.parse().ok()) };
-    for (k, _) in &phc.params {
-        let ok = if phc.id.starts_with("argon2") { matches!(k.as_str(), "m" | "t" | "p") } else { matches!(k.as_str(), "i" | "l") };
-        if !ok {
-            return Err(format!("unsupported KDF parameter {}", k));
-        }
-    }
+    let last = |k: &str| -> Option<&str> { phc.params.iter().rev().find(|(a, _)| a == k).map(|(_, v)| v.as_str()) };
+    let hash_len = phc.hash_b64.as_ref().map(|h| b64_decode_nopad(h.as_bytes()).map(|b| b.len()).unwrap_or(0));
     match phc.id.as_str() {
         "argon2id" | "argon2i" | "argon2d" => {
+            for (k, v) in &phc.params {
+                let ok = match k.as_str() {
+                    "m" | "t" => phc_decimal(v).is_some(),
+                    "p" => phc_decimal(v).map_or(false, |p| p <= 0xFF_FFFF),
+                    "keyid" => b64_decode_nopad(v.as_bytes()).map_or(false, |b| b.len() <= 8),
+                    "data" => b64_decode_nopad(v.as_bytes()).map_or(false, |b| b.len() <= 32),
+                    _ => false,
+                };
+                if !ok {
+                    return Err(format!("argon2 parameter {}={}", k, v));
+                }
+            }
             let alg = match phc.id.as_str() {
                 "argon2id" => argon2::Algorithm::Argon2id,
                 "argon2i" => argon2::Algorithm::Argon2i,
@@ -629,9 +677,23 @@ pub fn derive_key(phc: &Phc, password: &[u8]) -> Result<Vec<u8>, String> {
                 0x13 => argon2::Version::V0x13,
                 v => return Err(format!("argon2 version {}", v)),
             };
+            if hash_len.map_or(false, |l| l != 32) {
+                return Err("the hash of the string is not 32 bytes long".into());
+            }
             // a parameter that is not recorded has the default of the reference implementation
-            let (m, t, p) = (get("m").unwrap_or(19456), get("t").unwrap_or(2), get("p").unwrap_or(1));
-            let params = argon2::Params::new(m, t, p, Some(32)).map_err(|e| e.to_string())?;
+            let num = |k: &str, d: u32| last(k).and_then(phc_decimal).unwrap_or(d);
+            let (m, t, p) = (num("m", 19456), num("t", 2), num("p", 1));
+            let mut b = argon2::ParamsBuilder::new();
+            b.m_cost(m).t_cost(t).p_cost(p).output_len(32);
+            if let Some(d) = last("data") {
+                let d = b64_decode_nopad(d.as_bytes()).unwrap_or_default();
+                b.data(argon2::AssociatedData::new(&d).map_err(|e| e.to_string())?);
+            }
+            if let Some(d) = last("keyid") {
+                let d = b64_decode_nopad(d.as_bytes()).unwrap_or_default();
+                b.keyid(argon2::KeyId::new(&d).map_err(|e| e.to_string())?);
+            }
+            let params = b.build().map_err(|e| e.to_string())?;
             let mut out = vec![0u8; 32];
             argon2::Argon2::new(alg, ver, params).hash_password_into(password, &phc.salt, &mut out).map_err(|e| e.to_string())?;
             Ok(out)
@@ -640,10 +702,19 @@ pub fn derive_key(phc: &Phc, password: &[u8]) -> Result<Vec<u8>, String> {
             if phc.version.is_some() {
                 return Err("pbkdf2 has no version".into());
             }
-            let rounds = get("i").unwrap_or(600_000);
-            let l = get("l").unwrap_or(32) as usize;
-            if l != 32 {
-                return Err(format!("key length {} is not 32", l));
+            for (k, v) in &phc.params {
+                if !matches!(k.as_str(), "i" | "l") || phc_decimal(v).is_none() {
+                    return Err(format!("pbkdf2 parameter {}={}", k, v));
+                }
+            }
+            let rounds = last("i").and_then(phc_decimal).unwrap_or(600_000);
+            if let Some(l) = last("l").and_then(phc_decimal) {
+                if l != 32 {
+                    return Err(format!("key length {} is not 32", l));
+                }
+                if hash_len.map_or(false, |h| h != 32) {
+                    return Err("the hash of the string is not l bytes long".into());
+                }
             }
             let mut out = vec![0u8; 32];
             if phc.id == "pbkdf2-sha256" {
